@@ -282,7 +282,13 @@ struct Layout { c2_on_x: bool, b_on_j3: bool, c3_on_j4: bool, c3_on_x: bool, c4_
 /// joint elements (name index 1..6 -> inner XML of the joint) for OPW parameters in a supported layout
 fn joint_xml(r: &mut Rng, u: &URDFParameters, lay: &Layout, names: &[String; 6]) -> Vec<String> {
     let mut v = vec![];
-    let xyz = |r: &mut Rng, x: f64, y: f64, z: f64| format!("{} {} {}", num(r, x), num(r, y), num(r, z));
+    // the three numbers are separated by any amount of white space (blanks, a tab), with or without blanks around them
+    let xyz = |r: &mut Rng, x: f64, y: f64, z: f64| {
+        let sep = |r: &mut Rng| (*r.pick(&[" ", " ", " ", "  ", "\t", "   ", " \t "])).to_string();
+        let (a, b) = (sep(r), sep(r));
+        let (lead, trail) = (*r.pick(&["", "", " "]), *r.pick(&["", "", " ", "  "]));
+        format!("{}{}{}{}{}{}{}", lead, num(r, x), a, num(r, y), b, num(r, z), trail)
+    };
     let origins: [String; 6] = [
         xyz(r, 0.0, 0.0, u.c1),
         xyz(r, u.a1, 0.0, 0.0),
